@@ -81,6 +81,9 @@ def run(repo, rep, tier):
     # the solar position every clause of this property is measured against must depend on its epoch argument only
     stateless_scan(repo, rep, fam + [("Sun", "Sun.apparent_geocentric_position"), ("Sun", "Sun.geometric_geocentric_position"),
                                      ("Epoch", "Epoch.apparent_sidereal_time"), ("Coordinates", "equatorial2horizontal")])
+    # premise of the evaluator: Angle / Epoch operators mean what their names say and leave their operands alone
+    from ..premises import operator_semantics
+    operator_semantics(repo, rep)
     return "other"
 
 
